@@ -3,117 +3,108 @@
  * ([alg.move], [alg.copy], [alg.lex.comparison], [iterator.operations]) in terms of the ELEM_* protocol functions;
  * libstdc++ is TRUSTED to behave like this.
  *
- * The loops carry their own loop contracts (two tracked slot indices g_k / g_j, see c02_vec.h): after n steps
- * the tracked slot is "assigned" (LIVE, value of its pre-state source slot), "moved-from" or still in its
- * pre-state.  An overlap that ISO forbids and that would change the result is asserted ("std:" group) and the path
- * is then cut (behaviour undefined).  The stubs model ranges inside ONE block (all igris::vector uses are). */
+ * An overlap that ISO forbids and that would change the result is asserted ("std:" group) and the path is then cut
+ * (behaviour undefined).  The stubs model ranges inside ONE block (all igris::vector uses are). */
 #ifndef C02_STD_ALGO_H
 #define C02_STD_ALGO_H
 #include <stddef.h>
 
 size_t g_j;                 /* second tracked slot index (value bookkeeping: harnesses tie it to g_k +- shift) */
 
-/* pre-state snapshot of the slot at relative index r of the range base `first` (cbmc only; guarded deref) */
+/* The three shifting algorithms  std::move_backward / std::move / std::copy  on a range inside one block.
+ * ISO ([alg.move], [alg.copy]): for n = 0..N-1 (move_backward: n = 1..N from the back), in this order,
+ *      *(d_first + n) = std::move(*(first + n))      resp.  = *(first + n).
+ * Natively (REPLAY) that loop runs as written.  Under cbmc the element-wise loop over a symbolic-size block is
+ * replaced by its effect ON THE TRACKED SLOTS (g_k, g_j; c02_vec.h), stated with the same ELEM_* protocol calls:
+ * a slot g of the source range [F, L) is read / moved from once (event S), a slot of the destination range
+ * [Dlo, Dlo+N) is assigned once (event A) from the slot g - Dlo + F; for a slot in both ranges the order of its two
+ * events is the order of the loop (forward: S first iff Dlo < F; backward: S first iff F < Dlo; Dlo == F: one
+ * self-assignment).  Under the ISO precondition (destination start not inside the source range, asserted) a source
+ * slot still holds its pre-state VALUE when it is read.  Every other slot of the block is havocked (its content is
+ * unknown to the proof).  The partner of an event is a scratch element (LIVE; the partner's own obligations are
+ * checked when the partner is the tracked slot).  units/C02/algo_sparse_vs_loop.c cross-checks this summary against
+ * the element-wise loop on blocks of up to 4 slots (bounded). */
 #ifdef REPLAY
-#define C02_REL(first, gi) ((ptrdiff_t)0)
-#define C02_BLK_SLOTS(first) ((ptrdiff_t)0)
-#else
-#define C02_REL(first, gi) ((ptrdiff_t)(gi) - (ptrdiff_t)C02_IDX(first))
-#define C02_BLK_SLOTS(first) ((ptrdiff_t)(__CPROVER_OBJECT_SIZE(first) C02_SHR))
+#define C02_ALGO_LOOPS 1
 #endif
-/* the slot with relative index r exists in the block that holds `first` */
-#define C02_EXISTS(first, r) ((r) + (ptrdiff_t)C02_IDX(first) >= 0 && (r) + (ptrdiff_t)C02_IDX(first) < C02_BLK_SLOTS(first))
-
-/* state of one tracked slot (relative index kk) after n steps of a shifting assignment loop
- *   asg: slot already assigned   mov: slot already moved-from (only for move loops)   */
-#define C02_SHIFT_INV(first, kk, ex, asg, mov, s, vsrc, st0, v0)                                              \
-    (!(ex) || C02_IS(&(first)[kk], ((asg) && (s) != 0) ? ELEM_LIVE : ((mov) && !(asg)) ? ELEM_MOVED : (st0),             \
-                     ((asg) && (s) != 0) ? (vsrc) : (v0)))
-
+struct c02_shift { size_t NS, F, L, N, Dlo; int is_move, backward; };
+/* the events of slot g, applied to a local copy *slot of it (one array read before, one array write after) */
+static inline void c02_shift_slot(ELEM *slot, const struct c02_shift *h, size_t g, int vsrc)
+{
+    ELEM scratch;
+    _Bool inS = g >= h->F && g < h->L, inA = g >= h->Dlo && g - h->Dlo < h->N;
+    _Bool s_first = h->backward ? h->F < h->Dlo : h->Dlo < h->F;
+    if (inS && inA && h->Dlo == h->F) {                 /* *p = std::move(*p) / *p = *p */
+        if (h->is_move) ELEM_move_assign(slot, slot); else ELEM_copy_assign(slot, slot);
+        return;
+    }
+    if (inS && (s_first || !inA)) {
+        ELEM_SET(&scratch, ELEM_LIVE, 0);
+        if (h->is_move) ELEM_move_assign(&scratch, slot); else ELEM_copy_assign(&scratch, slot);
+    }
+    if (inA) {
+        ELEM_SET(&scratch, ELEM_LIVE, vsrc);
+        if (h->is_move) ELEM_move_assign(slot, &scratch); else ELEM_copy_assign(slot, &scratch);
+    }
+    if (inS && inA && !s_first) {
+        ELEM_SET(&scratch, ELEM_LIVE, 0);
+        if (h->is_move) ELEM_move_assign(&scratch, slot); else ELEM_copy_assign(&scratch, slot);
+    }
+}
+/* common part: first/last/dpos -> indices, ISO preconditions, then the loop (native) or the sparse effect (cbmc) */
+static inline void c02_shift(ELEM *first, ELEM *last, ELEM *d_lo, int is_move, int backward, const char *unused)
+{
+    (void)unused;
+    __CPROVER_assert(__CPROVER_same_object(first, last) && __CPROVER_same_object(first, d_lo), "spec: std algorithm stub models ranges inside one block");
+    __CPROVER_assert(first <= last, "std: move / move_backward / copy: [first, last) is a valid range");
+    if (!(first <= last)) __CPROVER_assume(0);
+    size_t N = (size_t)(last - first);
+#ifdef C02_ALGO_LOOPS
+    if (backward) for (size_t n = 0; n < N; n++) { if (is_move) ELEM_move_assign(d_lo + (N - 1 - n), first + (N - 1 - n)); else ELEM_copy_assign(d_lo + (N - 1 - n), first + (N - 1 - n)); }
+    else for (size_t n = 0; n < N; n++) { if (is_move) ELEM_move_assign(d_lo + n, first + n); else ELEM_copy_assign(d_lo + n, first + n); }
+#else
+    ELEM *base = C02_BASE(first);
+    struct c02_shift h = { C02_NSLOTS(first), C02_IDX(first), C02_IDX(last), N, C02_IDX(d_lo), is_move, backward };
+    /* ISO: backward: d_last not in (first, last]; forward: d_first not in [first, last) - except the harmless self-assignment Dlo == F */
+    __CPROVER_assert(N == 0 || h.Dlo == h.F || (backward ? !(h.Dlo + N > h.F && h.Dlo < h.F) : !(h.Dlo > h.F && h.Dlo < h.L)),
+                     "std: move / move_backward / copy: the destination does not start inside the source range in copy direction (ISO precondition)");
+    if (!(N == 0 || h.Dlo == h.F || (backward ? !(h.Dlo + N > h.F && h.Dlo < h.F) : !(h.Dlo > h.F && h.Dlo < h.L)))) __CPROVER_assume(0);
+    __CPROVER_assert(h.L <= h.NS && h.Dlo + N <= h.NS, "bounds: move / move_backward / copy: source and destination range inside the block");
+    if (!(h.L <= h.NS && h.Dlo + N <= h.NS)) __CPROVER_assume(0);
+    if (N == 0) return;
+    /* local copies of the tracked slots, pre-state values of their source slots */
+    _Bool exk = g_k < h.NS, exj = g_j < h.NS && g_j != g_k;
+    ELEM ck, cj, sk, sj;
+    ck.g_bits = exk ? base[g_k].g_bits : 0; cj.g_bits = exj ? base[g_j].g_bits : 0;
+    sk.g_bits = (exk && g_k >= h.Dlo && g_k - h.Dlo < N) ? base[g_k - h.Dlo + h.F].g_bits : 0;
+    sj.g_bits = (exj && g_j >= h.Dlo && g_j - h.Dlo < N) ? base[g_j - h.Dlo + h.F].g_bits : 0;
+    /* the copy of slot g_k is checked exactly as the slot itself would be (same waiver) */
+    g_solo2 = (exk && !C02_WAIVED(&base[g_k])) ? &ck : 0;
+    if (exk) c02_shift_slot(&ck, &h, g_k, ELEM_V(&sk));
+    g_solo2 = 0;
+    if (exj) c02_shift_slot(&cj, &h, g_j, ELEM_V(&sj));
+    __CPROVER_havoc_object(base);
+    if (exk) base[g_k] = ck;
+    if (exj) base[g_j] = cj;
+#endif
+}
 /* std::move_backward(first, last, d_last): for n = 1..N  *(d_last - n) = std::move(*(last - n)); returns d_last - N */
 static inline ELEM *c02_std_move_backward(ELEM *first, ELEM *last, ELEM *d_last)
 {
-    __CPROVER_assert(__CPROVER_same_object(first, last) && __CPROVER_same_object(first, d_last), "spec: std algorithm stub models ranges inside one block");
-    __CPROVER_assert(first <= last, "std: move_backward: [first, last) is a valid range");
-    ptrdiff_t N = last - first, s = d_last - last;
-    __CPROVER_assert(!(N > 0 && s < 0 && -s < N), "std: move_backward: d_last not inside (first, last) (ISO precondition)");
-    if (N < 0 || (N > 0 && s < 0 && -s < N)) __CPROVER_assume(0);
-    /* relative indices: source [0, N), destination [s, N + s) */
-    ptrdiff_t ka = C02_REL(first, g_k), kb = C02_REL(first, g_j);
-    _Bool exa = C02_EXISTS(first, ka), exb = C02_EXISTS(first, kb);
-    _Bool sea = exa && C02_EXISTS(first, ka - s), seb = exb && C02_EXISTS(first, kb - s);
-    ELEM ea, eb, eas, ebs;
-    ea.g_bits = exa ? first[ka].g_bits : 0; eb.g_bits = exb ? first[kb].g_bits : 0;
-    eas.g_bits = sea ? first[ka - s].g_bits : 0; ebs.g_bits = seb ? first[kb - s].g_bits : 0;
-    unsigned char sa0 = ELEM_ST(&ea), sb0 = ELEM_ST(&eb);
-    int va0 = ELEM_V(&ea), vb0 = ELEM_V(&eb), vas = ELEM_V(&eas), vbs = ELEM_V(&ebs);
-    for (ptrdiff_t n = 0; n < N; n++)
-    __CPROVER_assigns(n, __CPROVER_object_whole(first))
-    __CPROVER_loop_invariant(0 <= n && n <= N)
-    __CPROVER_loop_invariant(C02_SHIFT_INV(first, ka, exa, ka >= s && ka < N + s && ka >= N + s - n, ka >= 0 && ka < N && ka >= N - n, s, vas, sa0, va0))
-    __CPROVER_loop_invariant(C02_SHIFT_INV(first, kb, exb, kb >= s && kb < N + s && kb >= N + s - n, kb >= 0 && kb < N && kb >= N - n, s, vbs, sb0, vb0))
-    __CPROVER_decreases(N - n)
-    {
-        ELEM_move_assign(first + (N + s - 1 - n), first + (N - 1 - n));
-    }
-    return d_last - N;
+    c02_shift(first, last, d_last - (last - first), 1, 1, "move_backward");
+    return d_last - (last - first);
 }
-
 /* std::move(first, last, d_first): for n = 0..N-1  *(d_first + n) = std::move(*(first + n)); returns d_first + N */
 static inline ELEM *c02_std_move(ELEM *first, ELEM *last, ELEM *d_first)
 {
-    __CPROVER_assert(__CPROVER_same_object(first, last) && __CPROVER_same_object(first, d_first), "spec: std algorithm stub models ranges inside one block");
-    __CPROVER_assert(first <= last, "std: move: [first, last) is a valid range");
-    ptrdiff_t N = last - first, s = d_first - first;
-    __CPROVER_assert(!(s > 0 && s < N), "std: move: d_first not inside (first, last) (ISO precondition)");
-    if (N < 0 || (s > 0 && s < N)) __CPROVER_assume(0);
-    ptrdiff_t ka = C02_REL(first, g_k), kb = C02_REL(first, g_j);
-    _Bool exa = C02_EXISTS(first, ka), exb = C02_EXISTS(first, kb);
-    _Bool sea = exa && C02_EXISTS(first, ka - s), seb = exb && C02_EXISTS(first, kb - s);
-    ELEM ea, eb, eas, ebs;
-    ea.g_bits = exa ? first[ka].g_bits : 0; eb.g_bits = exb ? first[kb].g_bits : 0;
-    eas.g_bits = sea ? first[ka - s].g_bits : 0; ebs.g_bits = seb ? first[kb - s].g_bits : 0;
-    unsigned char sa0 = ELEM_ST(&ea), sb0 = ELEM_ST(&eb);
-    int va0 = ELEM_V(&ea), vb0 = ELEM_V(&eb), vas = ELEM_V(&eas), vbs = ELEM_V(&ebs);
-    for (ptrdiff_t n = 0; n < N; n++)
-    __CPROVER_assigns(n, __CPROVER_object_whole(first))
-    __CPROVER_loop_invariant(0 <= n && n <= N)
-    __CPROVER_loop_invariant(C02_SHIFT_INV(first, ka, exa, ka >= s && ka < s + n, ka >= 0 && ka < n, s, vas, sa0, va0))
-    __CPROVER_loop_invariant(C02_SHIFT_INV(first, kb, exb, kb >= s && kb < s + n, kb >= 0 && kb < n, s, vbs, sb0, vb0))
-    __CPROVER_decreases(N - n)
-    {
-        ELEM_move_assign(first + (s + n), first + n);
-    }
-    return d_first + N;
+    c02_shift(first, last, d_first, 1, 0, "move");
+    return d_first + (last - first);
 }
-
 /* std::copy(first, last, d_first): for n = 0..N-1  *(d_first + n) = *(first + n); returns d_first + N */
-static inline ELEM *c02_std_copy(const ELEM *first_c, const ELEM *last, ELEM *d_first)
+static inline ELEM *c02_std_copy(const ELEM *first, const ELEM *last, ELEM *d_first)
 {
-    ELEM *first = (ELEM *)first_c;
-    __CPROVER_assert(__CPROVER_same_object(first, last) && __CPROVER_same_object(first, d_first), "spec: std algorithm stub models ranges inside one block");
-    __CPROVER_assert(first <= last, "std: copy: [first, last) is a valid range");
-    ptrdiff_t N = last - first, s = d_first - first;
-    __CPROVER_assert(!(s > 0 && s < N), "std: copy: d_first not inside (first, last) (ISO precondition)");
-    if (N < 0 || (s > 0 && s < N)) __CPROVER_assume(0);
-    ptrdiff_t ka = C02_REL(first, g_k), kb = C02_REL(first, g_j);
-    _Bool exa = C02_EXISTS(first, ka), exb = C02_EXISTS(first, kb);
-    _Bool sea = exa && C02_EXISTS(first, ka - s), seb = exb && C02_EXISTS(first, kb - s);
-    ELEM ea, eb, eas, ebs;
-    ea.g_bits = exa ? first[ka].g_bits : 0; eb.g_bits = exb ? first[kb].g_bits : 0;
-    eas.g_bits = sea ? first[ka - s].g_bits : 0; ebs.g_bits = seb ? first[kb - s].g_bits : 0;
-    unsigned char sa0 = ELEM_ST(&ea), sb0 = ELEM_ST(&eb);
-    int va0 = ELEM_V(&ea), vb0 = ELEM_V(&eb), vas = ELEM_V(&eas), vbs = ELEM_V(&ebs);
-    for (ptrdiff_t n = 0; n < N; n++)
-    __CPROVER_assigns(n, __CPROVER_object_whole(first))
-    __CPROVER_loop_invariant(0 <= n && n <= N)
-    __CPROVER_loop_invariant(C02_SHIFT_INV(first, ka, exa, ka >= s && ka < s + n, 0, s, vas, sa0, va0))
-    __CPROVER_loop_invariant(C02_SHIFT_INV(first, kb, exb, kb >= s && kb < s + n, 0, s, vbs, sb0, vb0))
-    __CPROVER_decreases(N - n)
-    {
-        ELEM_copy_assign(first + (s + n), first + n);
-    }
-    return d_first + N;
+    c02_shift((ELEM *)first, (ELEM *)last, d_first, 0, 0, "copy");
+    return d_first + (last - first);
 }
 
 /* std::distance / std::prev on random access iterators */
